@@ -76,6 +76,7 @@ type Spec struct {
 	ShrinkBudget int    `json:"shrink_budget"`
 	StuckS       int    `json:"stuck_s"`
 	MaxViol      int    `json:"max_viol"`
+	JournalAll   bool   `json:"journal_all"` // journal every run (used to locate the run that kills the process)
 }
 
 // ViolRec is one violation a worker found.
